@@ -94,6 +94,19 @@ fn vk_si_pal() -> Word {
     }
 }
 
+/// c-word operand with palette words (3 symbolic bits per word)
+fn vk_si_pal_words(c: usize) -> [Word; 4] {
+    let mut r = [0; 4];
+    let mut i = 0;
+    while i < 4 {
+        if i < c {
+            r[i] = vk_si_pal();
+        }
+        i += 1;
+    }
+    r
+}
+
 /// (negative?, magnitude) of a result that must be INLINE (|x| < 2^128) and normalised, read from the layout.
 /// Consumes the value without dropping it.
 fn vk_si_take(x: Repr) -> (bool, u128) {
@@ -325,6 +338,7 @@ fn vk_si_ubig_addsub(c: usize) {
     assert!(vk_si_isu(&vk_si_u(c, &wa) + &vk_si_u(c, &wb), a + b));
     if a >= b {
         assert!(vk_si_isu(vk_si_u(c, &wa) - vk_si_u(c, &wb), a - b));
+        assert!(vk_si_isu(&vk_si_u(c, &wa) - &vk_si_u(c, &wb), a - b));
     }
 }
 vk_si_plain!(vk_stub_int_ubig_addsub_1_1, 8, vk_si_ubig_addsub, 1);
@@ -392,16 +406,16 @@ fn vk_si_mixed_addsub(sa: bool) {
 }
 vk_si_signs1!(vk_stub_int_mixed_addsub_1_1, 8, vk_si_mixed_addsub);
 
-/// one-word products (the code and the oracle both perform one u128 multiplication)
+/// one-word products, palette words
 fn vk_si_ibig_mul(sa: bool, sb: bool) {
-    let (wa, wb) = (vk_si_words(1), vk_si_words(1));
+    let (wa, wb) = (vk_si_pal_words(1), vk_si_pal_words(1));
     let p = (wa[0] as u128) * (wb[0] as u128);
     assert!(vk_si_is((vk_si_i(1, sa, &wa) * vk_si_i(1, sb, &wb)).0, sa != sb, p));
     assert!(vk_si_is((&vk_si_i(1, sa, &wa) * &vk_si_i(1, sb, &wb)).0, sa != sb, p));
 }
 vk_si_signs2!(vk_stub_int_ibig_mul_1_1, 8, vk_si_ibig_mul);
 fn vk_si_ubig_mul(sb: bool) {
-    let (wa, wb) = (vk_si_words(1), vk_si_words(1));
+    let (wa, wb) = (vk_si_pal_words(1), vk_si_pal_words(1));
     let p = (wa[0] as u128) * (wb[0] as u128);
     assert!(vk_si_isu(vk_si_u(1, &wa) * vk_si_u(1, &wb), p));
     assert!(vk_si_isu(vk_si_u(1, &wa).sqr(), (wa[0] as u128) * (wa[0] as u128)));
@@ -416,9 +430,9 @@ vk_si_signs1!(vk_stub_int_ubig_mul_1_1, 8, vk_si_ubig_mul);
 //   UBig: floor quotient / remainder;  IBig (and IBig op UBig): TRUNCATING quotient, remainder with the sign of the
 //   dividend:  a == q * b + r, |r| < |b|, r == 0 or sign(r) == sign(a)
 
-/// UBig / % div_rem, operands of ca / cb inline words (the code and the oracle both perform one u128 division)
+/// UBig / % div_rem, operands of ca / cb inline words, palette words
 fn vk_si_ubig_divrem(ca: usize, cb: usize) {
-    let (wa, wb) = (vk_si_words(ca), vk_si_words(cb));
+    let (wa, wb) = (vk_si_pal_words(ca), vk_si_pal_words(cb));
     let (a, b) = (vk_si_mag(&wa), vk_si_mag(&wb));
     assume(b != 0);
     assert!(vk_si_isu(vk_si_u(ca, &wa) / vk_si_u(cb, &wb), a / b));
@@ -431,31 +445,31 @@ vk_si_plain!(vk_stub_int_ubig_divrem_2_1, 8, vk_si_ubig_divrem, 2, 1);
 vk_si_plain!(vk_stub_int_ubig_divrem_1_2, 8, vk_si_ubig_divrem, 1, 2);
 
 fn vk_si_ibig_div(sa: bool, sb: bool) {
-    let (wa, wb) = (vk_si_words(2), vk_si_words(1));
+    let (wa, wb) = (vk_si_pal_words(2), vk_si_pal_words(1));
     let (a, b) = (vk_si_mag(&wa), vk_si_mag(&wb));
     assume(b != 0);
     assert!(vk_si_is((vk_si_i(2, sa, &wa) / vk_si_i(1, sb, &wb)).0, sa != sb, a / b));
 }
 fn vk_si_ibig_rem(sa: bool, sb: bool) {
-    let (wa, wb) = (vk_si_words(2), vk_si_words(1));
+    let (wa, wb) = (vk_si_pal_words(2), vk_si_pal_words(1));
     let (a, b) = (vk_si_mag(&wa), vk_si_mag(&wb));
     assume(b != 0);
     assert!(vk_si_is((vk_si_i(2, sa, &wa) % vk_si_i(1, sb, &wb)).0, sa, a % b));
 }
 fn vk_si_ibig_divrem(sa: bool, sb: bool) {
-    let (wa, wb) = (vk_si_words(1), vk_si_words(1));
+    let (wa, wb) = (vk_si_pal_words(2), vk_si_pal_words(2));
     let (a, b) = (vk_si_mag(&wa), vk_si_mag(&wb));
     assume(b != 0);
-    let (q, r) = vk_si_i(1, sa, &wa).div_rem(vk_si_i(1, sb, &wb));
+    let (q, r) = vk_si_i(2, sa, &wa).div_rem(vk_si_i(2, sb, &wb));
     assert!(vk_si_is(q.0, sa != sb, a / b) && vk_si_is(r.0, sa, a % b));
 }
 vk_si_signs2!(vk_stub_int_ibig_div_2_1, 8, vk_si_ibig_div);
 vk_si_signs2!(vk_stub_int_ibig_rem_2_1, 8, vk_si_ibig_rem);
-vk_si_signs2!(vk_stub_int_ibig_divrem_1_1, 8, vk_si_ibig_divrem);
+vk_si_signs2!(vk_stub_int_ibig_divrem_2_2, 8, vk_si_ibig_divrem);
 
 /// IBig / UBig, IBig % UBig (owned and borrowed forms of bigstub.rs / ratio2_stubs.rs / round_ratio_stubs.rs)
 fn vk_si_ibig_ubig_div(sa: bool) {
-    let (wa, wb) = (vk_si_words(1), vk_si_words(1));
+    let (wa, wb) = (vk_si_pal_words(1), vk_si_pal_words(1));
     let (a, b) = (vk_si_mag(&wa), vk_si_mag(&wb));
     assume(b != 0);
     assert!(vk_si_is((vk_si_i(1, sa, &wa) / vk_si_u(1, &wb)).0, sa, a / b));
@@ -499,15 +513,11 @@ vk_si_plain!(vk_stub_int_div_dispatch_3_4, 8, vk_si_div_short, 3, 4);
 /// a: 3 words; b: cb words (1, 2 or 3); q: at most 3 words; r: at most cb words
 fn vk_si_div_long(cb: usize) {
     let wa = [vk_si_pal(), vk_si_pal(), vk_si_pal(), 0];
-    let mut wb = [0 as Word; 4];
-    let mut i = 0;
-    while i < 4 {
-        if i < cb {
-            wb[i] = vk_si_pal();
-        }
-        i += 1;
-    }
+    let wb = vk_si_pal_words(cb);
     assume(cb >= 2 || wb[0] != 0);
+    vk_si_div_long_at(wa, wb, cb)
+}
+fn vk_si_div_long_at(wa: [Word; 4], wb: [Word; 4], cb: usize) {
     let (q, r) = vk_si_u(3, &wa).div_rem(vk_si_u(cb, &wb));
     let mut qw = [0 as Word; 4];
     let mut rw = [0 as Word; 4];
@@ -554,8 +564,35 @@ fn vk_si_div_long(cb: usize) {
     assert!(carry == 0);
 }
 vk_si_plain!(vk_stub_int_div_long_3_1, 12, vk_si_div_long, 1);
-vk_si_plain!(vk_stub_int_div_long_3_2, 12, vk_si_div_long, 2);
-vk_si_plain!(vk_stub_int_div_long_3_3, 12, vk_si_div_long, 3);
+/// two- and three-word divisors (Knuth division with the real reciprocal divider): PINNED operands (the divisor words
+/// are `any()` + `assume(== literal)`: CBMC 6.11's constant folder crashes on num_modular's reciprocal of a literal)
+fn vk_si_pin(v: Word) -> Word {
+    let x: Word = any();
+    assume(x == v);
+    x
+}
+#[cfg_attr(kani, kani::proof)]
+#[cfg_attr(kani, kani::unwind(12))]
+#[cfg_attr(not(kani), test)]
+fn vk_stub_int_div_long_3_2_pinned() {
+    vk_si_div_long_at(
+        [5, 0x8000_0000_0000_0000, 0x0123_4567_89ab_cdef, 0],
+        [vk_si_pin(0xffff_ffff_0000_0001), vk_si_pin(0x7000_0000_0000_0003), 0, 0],
+        2,
+    );
+    cover();
+}
+#[cfg_attr(kani, kani::proof)]
+#[cfg_attr(kani, kani::unwind(12))]
+#[cfg_attr(not(kani), test)]
+fn vk_stub_int_div_long_3_3_pinned() {
+    vk_si_div_long_at(
+        [Word::MAX, Word::MAX - 1, 0x8000_0000_0000_0001, 0],
+        [vk_si_pin(3), vk_si_pin(9), vk_si_pin(0x4000_0000_0000_0000), 0],
+        3,
+    );
+    cover();
+}
 
 // ------------------------------------------------------------------------------------------------------------------
 // (2d) << >>     (round_int_stubs.rs, bigstub.rs, conv_ratio_stubs.rs, gcdo_*):
@@ -581,11 +618,12 @@ vk_si_signs1!(vk_stub_int_shifts_n37, 8, vk_si_shifts, 37);
 // ------------------------------------------------------------------------------------------------------------------
 // (2e) pow / gcd / bit_len / trailing_zeros      (round_int_stubs.rs `UBig::pow`, bigstub.rs Gcd, trailing_zeros ...)
 
-/// UBig::pow / IBig::pow: r == v^exp (0^0 == 1); base < 2^16, concrete exponents 0..=4
-fn vk_si_pow(neg: bool, exp: usize) {
-    let b: u16 = any();
+/// UBig::pow / IBig::pow: r == v^exp (0^0 == 1).  CONCRETE bases and exponents, symbolic sign (the code strips the
+/// factors of two, runs a square-and-multiply loop and shifts back: symbolic bases are out of CBMC's reach)
+fn vk_si_pow(neg: bool, be: (Word, usize)) {
+    let (b, exp) = be;
     let mut w = [0 as Word; 4];
-    w[0] = b as Word;
+    w[0] = b;
     let mut want: u128 = 1;
     let mut i = 0;
     while i < exp {
@@ -593,52 +631,76 @@ fn vk_si_pow(neg: bool, exp: usize) {
         i += 1;
     }
     assert!(vk_si_isu(vk_si_u(1, &w).pow(exp), want));
-    assert!(vk_si_is(vk_si_i(1, neg, &w).pow(exp).0, neg && exp % 2 == 1, want));
+    assert!(vk_si_is(vk_si_i(1, neg && b != 0, &w).pow(exp).0, neg && exp % 2 == 1, want));
 }
-vk_si_signs1!(vk_stub_int_pow_e0, 12, vk_si_pow, 0);
-vk_si_signs1!(vk_stub_int_pow_e1, 12, vk_si_pow, 1);
-vk_si_signs1!(vk_stub_int_pow_e2, 12, vk_si_pow, 2);
-vk_si_signs1!(vk_stub_int_pow_e3, 12, vk_si_pow, 3);
-vk_si_signs1!(vk_stub_int_pow_e4, 12, vk_si_pow, 4);
+macro_rules! vk_si_pow_list {
+    ($name:ident, [$($p:expr),*]) => {
+        #[cfg_attr(kani, kani::proof)]
+        #[cfg_attr(kani, kani::unwind(130))]
+        #[cfg_attr(not(kani), test)]
+        fn $name() {
+            if any::<bool>() {
+                $(vk_si_pow(true, $p);)*
+            } else {
+                $(vk_si_pow(false, $p);)*
+            }
+            cover();
+        }
+    };
+}
+vk_si_pow_list!(vk_stub_int_pow_a, [(0, 0), (0, 3), (1, 5), (7, 0), (7, 1)]);
+vk_si_pow_list!(vk_stub_int_pow_b, [(3, 5), (10, 19), (12, 7), (6, 20)]);
+vk_si_pow_list!(vk_stub_int_pow_c, [(0xffff_ffff, 3), (2, 127), (48, 11)]);
 
-/// gcd by divisibility (bigstub.rs gcd_post): g > 0, g | a, g | b, every common divisor d divides g; operands < 2^6
-fn vk_si_gcd_check(g: UBig, x: u8, y: u8) {
+/// gcd by divisibility (bigstub.rs gcd_post): g > 0, g | a, g | b, every common divisor d divides g.
+/// CONCRETE magnitudes (binary gcd loop on u128), all sign combinations and forms, symbolic candidate divisor d
+fn vk_si_gcd_check(g: UBig, x: u64, y: u64) {
     let (gn, gm) = vk_si_take(g.0);
-    assert!(!gn && gm >= 1 && gm <= 63);
-    let gv = gm as u8;
+    assert!(!gn && gm >= 1 && gm <= u64::MAX as u128);
+    let gv = gm as u64;
     assert!(x % gv == 0 && y % gv == 0);
-    let d: u8 = any();
-    assume(d >= 1 && d < 64);
-    if x % d == 0 && y % d == 0 {
-        assert!(gv % d == 0);
+    let d: u16 = any();
+    assume(d >= 1);
+    if x % (d as u64) == 0 && y % (d as u64) == 0 {
+        assert!(gv % (d as u64) == 0);
     }
 }
-/// IBig gcd IBig, both non-zero, all sign combinations
-fn vk_si_gcd(sa: bool, sb: bool) {
-    let (x, y): (u8, u8) = (any(), any());
-    assume(x >= 1 && x < 64 && y >= 1 && y < 64);
+fn vk_si_gcd(sa: bool, sb: bool, xy: (u64, u64)) {
+    let (x, y) = xy;
     let (mut wa, mut wb) = ([0 as Word; 4], [0 as Word; 4]);
-    wa[0] = x as Word;
-    wb[0] = y as Word;
-    vk_si_gcd_check((&vk_si_i(1, sa, &wa)).gcd(&vk_si_i(1, sb, &wb)), x, y);
-}
-vk_si_signs2!(vk_stub_int_gcd_small, 140, vk_si_gcd);
-/// UBig gcd UBig (one operand may be zero), and the mixed forms of bigstub.rs
-fn vk_si_gcd_u(sb: bool) {
-    let (x, y): (u8, u8) = (any(), any());
-    assume(x < 64 && y >= 1 && y < 64);
-    let (mut wa, mut wb) = ([0 as Word; 4], [0 as Word; 4]);
-    wa[0] = x as Word;
-    wb[0] = y as Word;
-    if sb {
-        vk_si_gcd_check((&vk_si_u(1, &wa)).gcd(&vk_si_i(1, true, &wb)), x, y);
-        vk_si_gcd_check((&vk_si_i(1, true, &wb)).gcd(&vk_si_u(1, &wa)), x, y);
-    } else {
+    wa[0] = x;
+    wb[0] = y;
+    vk_si_gcd_check((&vk_si_i(1, sa && x != 0, &wa)).gcd(&vk_si_i(1, sb && y != 0, &wb)), x, y);
+    if !sa {
+        vk_si_gcd_check((&vk_si_u(1, &wa)).gcd(&vk_si_i(1, sb && y != 0, &wb)), x, y);
+    }
+    if !sb {
+        vk_si_gcd_check((&vk_si_i(1, sa && x != 0, &wa)).gcd(&vk_si_u(1, &wb)), x, y);
+    }
+    if !sa && !sb {
         vk_si_gcd_check((&vk_si_u(1, &wa)).gcd(&vk_si_u(1, &wb)), x, y);
-        vk_si_gcd_check(vk_si_u(1, &wb).gcd(&vk_si_u(1, &wa)), x, y);
+        vk_si_gcd_check(vk_si_u(1, &wa).gcd(&vk_si_u(1, &wb)), x, y);
     }
 }
-vk_si_signs1!(vk_stub_int_gcd_small_mixed, 140, vk_si_gcd_u);
+macro_rules! vk_si_gcd_list {
+    ($name:ident, [$($p:expr),*]) => {
+        #[cfg_attr(kani, kani::proof)]
+        #[cfg_attr(kani, kani::unwind(140))]
+        #[cfg_attr(not(kani), test)]
+        fn $name() {
+            match (any::<bool>(), any::<bool>()) {
+                (false, false) => { $(vk_si_gcd(false, false, $p);)* }
+                (false, true) => { $(vk_si_gcd(false, true, $p);)* }
+                (true, false) => { $(vk_si_gcd(true, false, $p);)* }
+                (true, true) => { $(vk_si_gcd(true, true, $p);)* }
+            }
+            cover();
+        }
+    };
+}
+vk_si_gcd_list!(vk_stub_int_gcd_a, [(12, 18), (0, 7), (7, 0)]);
+vk_si_gcd_list!(vk_stub_int_gcd_b, [(1, 1), (48, 180), (17, 31)]);
+vk_si_gcd_list!(vk_stub_int_gcd_c, [(1 << 40, 3 << 20), (600851475143, 71 * 839)]);
 
 /// BitTest::bit_len, trailing_zeros of UBig (one / two words)
 fn vk_si_bits(c: usize) {
@@ -650,3 +712,18 @@ fn vk_si_bits(c: usize) {
 }
 vk_si_plain!(vk_stub_int_ubig_bits_1, 8, vk_si_bits, 1);
 vk_si_plain!(vk_stub_int_ubig_bits_2, 8, vk_si_bits, 2);
+/// heap magnitudes (3 words): bit_len from the top word, trailing_zeros = index of the lowest set bit
+fn vk_si_bits_heap() {
+    let w = vk_si_words(3);
+    let u = vk_si_u(3, &w);
+    assert!(u.bit_len() == 192 - w[2].leading_zeros() as usize);
+    let want = if w[0] != 0 {
+        w[0].trailing_zeros() as usize
+    } else if w[1] != 0 {
+        64 + w[1].trailing_zeros() as usize
+    } else {
+        128 + w[2].trailing_zeros() as usize
+    };
+    assert!(u.trailing_zeros() == Some(want));
+}
+vk_si_plain!(vk_stub_int_ubig_bits_3, 8, vk_si_bits_heap);
